@@ -98,15 +98,16 @@ def rule_entry(prog, rep):
         for fn2 in [x for x in ast.walk(mod.tree) if isinstance(x, ast.FunctionDef)]:
             for node in ast.walk(fn2):
                 if isinstance(node, ast.Attribute) and node.attr in PRIVATE:
-                    # innermost enclosing def decides
-                    inner = _innermost_def(mod.tree, node)
-                    if inner is not fn2:
+                    # the outermost enclosing function (the method itself) decides: nested defs / lambdas inside
+                    # a private core run on the same, already unwrapped, self
+                    outer = _outermost_def(mod.tree, node)
+                    if outer is not fn2:
                         continue
                     n += 1
                     ok = fn2.name in PRIVATE or fn2.name in PUBLIC
                     if fn2.name in PUBLIC:
                         ok = isinstance(node.value, ast.Name) and node.value.id == "self"
-                    if isinstance(_parent_lambda(fn2, node), ast.Lambda) and fn2.name in PRIVATE:
+                    if fn2.name in PRIVATE:
                         ok = True
                     kk = f"{mod.name}.{fn2.name}:{ast.unparse(node)}"
                     rep.check(ok, "C12.entry", f"{mod.relpath}:{node.lineno}", kk,
@@ -114,6 +115,20 @@ def rule_entry(prog, rep):
                               f"private core {ast.unparse(node)} is used from {fn2.name}, outside the unwrapped "
                               f"private/public method set")
     rep.analysed["private_core_sites"] = n
+
+
+def _outermost_def(tree, target):
+    def find(body):
+        for st in body:
+            if isinstance(st, ast.FunctionDef):
+                if any(n is target for n in ast.walk(st)):
+                    return st
+            elif isinstance(st, ast.ClassDef):
+                r = find(st.body)
+                if r is not None:
+                    return r
+        return None
+    return find(tree.body)
 
 
 def _innermost_def(tree, target):
@@ -223,21 +238,35 @@ def rule_freeze(prog, rep):
             continue
         fn = m.functions[fname]
         site = f"{m.relpath}:{fn.lineno}"
-        calls = [n for n in ast.walk(fn) if isinstance(n, ast.Call) and ast.unparse(n.func) in ("eqx.partition", "equinox.partition")]
-        if len(calls) != 1:
-            rep.undecided("C12.freeze", site, f"{fname}:partition", f"expected one eqx.partition call, found {len(calls)}")
-            continue
-        call = calls[0]
-        it = Interp(prog)
-        env = Env()
-        for a in fn.args.args + fn.args.kwonlyargs:
-            env.set(a.arg, ("sym", a.arg.upper()))
-        # parameter defaults (filter_spec=eqx.is_inexact_array)
+        # evaluate the loop-free prefix of the function (helpers inlined) and locate the partition call
+        from .loops import summarise
+        from ..terms import assigned_names
+        body = [st for st in fn.body if not (isinstance(st, ast.Expr) and isinstance(st.value, ast.Constant))]
+        prefix = []
+        for st in body:
+            if isinstance(st, (ast.For, ast.While, ast.Return)):
+                break
+            prefix.append(st)
+        ins = [a.arg for a in fn.args.args + fn.args.kwonlyargs]
+        outs = assigned_names(prefix)
+        extra = {}
         pos = fn.args.args
+        it0 = Interp(prog)
         for a, d in zip(pos[len(pos) - len(fn.args.defaults):], fn.args.defaults):
             if isinstance(d, (ast.Attribute, ast.Name)):
-                env.set(a.arg, it.ev(d, Env(), (m, None, None)))
-        t = it.ev(call, env, (m, None, None))
+                extra[a.arg] = it0.ev(d, Env(), (m, None, None))
+        res, _ = summarise(prog, m, prefix, [i for i in ins if i not in extra], outs, None, extra_env=extra)
+        pcalls = {}
+        for nm, tt in res.items():
+            for s2 in walk(tt):
+                if s2[0] == "call" and s2[1] == ("ext", "equinox.partition"):
+                    pcalls[key(s2)] = s2
+        if len(pcalls) != 1:
+            rep.undecided("C12.freeze", site, f"{fname}:partition", f"expected one eqx.partition of the model, found {len(pcalls)}")
+            continue
+        t = next(iter(pcalls.values()))
+        static_names = [nm for nm, tt in res.items() if same(tt, ("sub", t, C(1)))]
+        param_names = [nm for nm, tt in res.items() if same(tt, ("sub", t, C(0)))]
         kw = dict(t[3]) if t[0] == "call" else {}
         spec = kw.get("filter_spec")
         leaf = kw.get("is_leaf")
@@ -255,15 +284,11 @@ def rule_freeze(prog, rep):
                   f"is_leaf is {show(leaf, 160) if leaf else None}: without it the partition descends into NonTrainable "
                   f"nodes and their arrays become trainable parameters (moved by e.g. weight decay)")
         # combine(params, static) uses the static of this partition
-        tgt = None
-        for st in ast.walk(fn):
-            if isinstance(st, ast.Assign) and st.value is call and isinstance(st.targets[0], ast.Tuple) and len(st.targets[0].elts) == 2:
-                tgt = [e.id for e in st.targets[0].elts if isinstance(e, ast.Name)]
         combs = [n for n in ast.walk(fn) if isinstance(n, ast.Call) and ast.unparse(n.func) in ("eqx.combine", "equinox.combine")]
-        ok_c = bool(tgt) and len(tgt) == 2 and bool(combs) and all(
-            len(n.args) == 2 and isinstance(n.args[1], ast.Name) and n.args[1].id == tgt[1] for n in combs)
+        ok_c = bool(static_names) and bool(combs) and all(
+            len(n.args) == 2 and isinstance(n.args[1], ast.Name) and n.args[1].id in static_names for n in combs)
         reassigned = sum(1 for st in ast.walk(fn) for t2 in (st.targets if isinstance(st, ast.Assign) else [])
-                         for nm in ast.walk(t2) if isinstance(nm, ast.Name) and tgt and nm.id == tgt[1])
+                         for nm in ast.walk(t2) if isinstance(nm, ast.Name) and static_names and nm.id == static_names[0])
         rep.check(ok_c and reassigned == 1, "C12.freeze", site, f"{fname}:combine(params, same static)",
                   "the model is rebuilt with the static half of this partition",
                   f"combine calls {[ast.unparse(n) for n in combs]} / static reassigned {reassigned} times")
